@@ -34,8 +34,8 @@ impl Prop for C06 {
     }
     fn runs(&self, tier: Tier) -> u64 {
         match tier {
-            Tier::Quick => 40_000,
-            Tier::Thorough => 1_500_000,
+            Tier::Quick => 600_000,
+            Tier::Thorough => 10_000_000,
             Tier::Tiny => 40,
         }
     }
